@@ -1,4 +1,5 @@
 import PyElf.Driver.Json
+import PyElf.Driver.ConH
 import PyElf.Core.Bundles
 import PyElf.Gen.Tables
 import PyElf.Gen.Structs
@@ -26,46 +27,6 @@ import PyElf.Driver.C12
 import PyElf.Driver.C01
 open Lean
 namespace PyElf
-
-open PyElf.Model in
-def handleCon (req : Json) : Except String Json := do
-  -- {"k":"con","bundle":"elf"|"dwarf"|"ehabi","cfg":[...],"name":..., "hex":..., "pos":n}
-  let kind ← jStr req "bundle"
-  let cfg ← jArr req "cfg"
-  let name ← jStr req "name"
-  let data ← jHex req "hex"
-  let pos ← jNat req "pos"
-  let useSpec := (jBool req "spec").toOption.getD false
-  let (con, forms) : Option Con × (String → Option Con) ←
-    match kind, cfg with
-    | "elf", [Json.bool le, cls, Json.str mc, Json.bool sol, Json.bool core] => do
-        let cls ← jNatOf cls
-        if useSpec then
-          let b := Spec.elfStructs ⟨le, cls, mc, sol, core⟩
-          pure (b.get name, fun _ => none)
-        else
-        match Gen.elfBundles.find? (·.1 == (⟨le, cls, mc, sol, core⟩ : ElfCfg)) with
-        | some (_, b) => pure (b.get name, fun _ => none)
-        | none => throw "no such elf bundle"
-    | "dwarf", [Json.bool le, fmt, asz, ver] => do
-        let fmt ← jNatOf fmt; let asz ← jNatOf asz; let ver ← jNatOf ver
-        if useSpec then
-          let b := Spec.dwarfStructs ⟨le, fmt, asz, ver⟩
-          pure (b.get name, b.form)
-        else
-        match Gen.dwarfBundles.find? (·.1 == (⟨le, fmt, asz, ver⟩ : DwarfCfg)) with
-        | some (_, b) => pure (b.get name, b.form)
-        | none => throw "no such dwarf bundle"
-    | "ehabi", [Json.bool le] =>
-        if useSpec then pure ((Spec.ehabiStructs le).get name, fun _ => none) else
-        match Gen.ehabiBundles.find? (·.1 == le) with
-        | some (_, b) => pure (b.get name, fun _ => none)
-        | none => throw "no such ehabi bundle"
-    | _, _ => throw "bad cfg"
-  let some c := con | throw s!"no struct {name}"
-  let env : Env := { enumDecode := Model.genEnumDecode, forms := forms }
-  let r := structParse env c data pos
-  return Json.mkObj [("model", resJson (fun (v, p) => Json.mkObj [("v", v.toJson), ("pos", jN p)]) r)]
 
 def handle (req : Json) : Except String Json := do
   let p ← jStr req "p"
